@@ -372,7 +372,8 @@ def entry_points(rep, ctx, r, report):
     # --- amounts
     bad_amts = [-1.0, float("nan"), "abc", None, np.float64("nan"), np.float64(-2), -3, sympy.Integer(-1),
                 sympy.nan, [1], "1.0", sympy.Symbol("x"), fractions.Fraction(-1, 3), decimal.Decimal("-1.5"),
-                -1e-300, float("-inf")]
+                -1e-300, float("-inf"), fractions.Fraction(-1, 10**400), sympy.Rational(-1, 10**400), -10**400,
+                sympy.Float("-1e-400", 30)]
     good_amts = [3, 3.0, np.int64(3), np.float64(3.0), np.float32(3.0), fractions.Fraction(3),
                  sympy.Integer(3), sympy.Rational(6, 2), sympy.Float(3.0), np.uint8(3)]
     amt_eps = {
